@@ -205,6 +205,16 @@ class StdioBurst(Suite):
             for k in (ks if budget != "quick" else [0, 1, 3, 99, 101]):
                 for split in (False, True):
                     out.append({"k": k, "split": split, "id": f"burst-{k}", "D": 4 * P, "ver": ver})
+        # a server that writes its output as ONE JSON-RPC batch line (legal before 2025-06-18 and when
+        # no version has been negotiated): the members reach the caller as if written one by one
+        for ver in (None, "2025-03-26", "2024-11-05"):
+            for k in ([0, 1, 3, 50] if budget == "quick" else [0, 1, 2, 3, 50, 99, 100, 101, 400]):
+                for split in (False, True):
+                    for pos in ("last", "first", "middle"):
+                        c = {"k": k, "split": split, "id": f"burst-{k}", "D": 4 * P, "batch": pos}
+                        if ver:
+                            c["ver"] = ver
+                        out.append(c)
         return out
 
     def impl_batch(self, cases):
@@ -221,6 +231,12 @@ class StdioBurst(Suite):
         async def one(case):
             lines = [_json.dumps({"jsonrpc": "2.0", "method": "notifications/message", "params": {"i": i}}) for i in range(case["k"])]
             lines.append(_json.dumps({"jsonrpc": "2.0", "id": case["id"], "result": {"answer": case["k"]}}))
+            if case.get("batch"):
+                items = [_json.loads(x) for x in lines]
+                resp = items.pop()
+                at = {"last": len(items), "first": 0, "middle": len(items) // 2}[case["batch"]]
+                items.insert(at, resp)
+                lines = [_json.dumps(items)]
             data = ("\n".join(lines) + "\n").encode()
             chunks = [data] if not case["split"] else [data[: len(data) // 2], data[len(data) // 2:]]
             proc = stdio_h.FakeProcess([("chunk", c) for c in chunks])
@@ -268,7 +284,7 @@ class StdioBurst(Suite):
         return None if (o.get("outcome"), o.get("p")) == (m.get("outcome"), m.get("p")) else "differs"
 
     def kind(self, case, o):
-        return f"stdio-burst/{o.get('outcome')}/k{'<100' if case['k'] < 100 else '>=100'}/ver={case.get('ver')}"
+        return f"stdio-burst/{o.get('outcome')}/k{'<100' if case['k'] < 100 else '>=100'}/ver={case.get('ver')}" + ("/batch" if case.get("batch") else "")
 
     def nontrivial(self, case, o):
         return case["k"] > 0
@@ -286,7 +302,7 @@ class StdioBurst(Suite):
         for k in (100, 101, case["k"] // 2):
             if 0 <= k < case["k"]:
                 yield dict(case, k=k, id=f"burst-{k}")
-        if case.get("ver"):
+        if case.get("ver") and not case.get("batch"):
             c = dict(case)
             c.pop("ver")
             yield c
